@@ -56,6 +56,9 @@ func genResult(r *rand.Rand) *client.OpResult {
 		return o
 	}
 	o.OperationID = uint64(1 + r.Intn(6))
+	if r.Intn(12) == 0 {
+		o.OperationID = 0 // ids are the client's choice: zero is one of them
+	}
 	o.ProgrammingResult = []spb.AFTResult_Status{spb.AFTResult_FAILED, spb.AFTResult_RIB_PROGRAMMED, spb.AFTResult_FIB_PROGRAMMED}[r.Intn(3)]
 	if r.Intn(4) == 0 {
 		o.ServerError = []string{"bad entry", "unresolved"}[r.Intn(2)]
